@@ -322,9 +322,9 @@ func c3Compare(ref, opt c3Out) (kind string, judged bool) {
 // ---- judging one (program, encoding, level) -----------------------------------------
 
 type c3Verdict struct {
-	Kinds   map[string]c3Witness // failure kind -> first witness
-	Differs bool                 // bytecode differs from the reference (a disagreement that was checked by execution)
-	Runs    int                  // executions compared
+	Kinds    map[string]c3Witness // failure kind -> first witness
+	Differs  bool                 // bytecode differs from the reference (a disagreement that was checked by execution)
+	Runs     int                  // executions compared
 	Unjudged int
 }
 
